@@ -252,6 +252,7 @@ class SendFilter(SyncSuite):
     """C11: a filtered view (include/exclude, hard-link groups spread over included and excluded paths) transfers as a self-contained tree"""
     name = "sendfilter"
     focus = ("c01", "c11")
+    unpriv_share = 0
     rule = ("sources with hard-link groups spread over included and excluded paths x include/exclude lists from the pattern fragment; real Send over "
             "NewFilterFS(view) + Receive; STAT log vs filterWalk + hard-link reset model; destination = filtered view; non-trivial = filter non-empty, distinct")
 
